@@ -526,8 +526,35 @@ func tblLine(r *rng, name string, nkeys int, g *seqGen, allowKeep bool) string {
 }
 
 // genSeqScript builds one script.  profile ∈ mix, expiry, huge, load, bound, deferred.
+// wrapReadScript: an entry WITHOUT a deadline (the creation calculator returns 0) is read under a read calculator that
+// returns d, at a clock reading chosen so that `d - entry.ExpiresAfter()` - computed in int64 - is MinInt64 or next to it:
+// MaxInt64 - now wraps to d - 2^63 exactly when now = -(d+1).  The read must store now + d (C12: for all clock values).
+func wrapReadScript(r *rng) []string {
+	d := pick(r, []int64{1, 7, 1000, 1000000000, 1 << 30, 1 << 40, 1 << 50})
+	c0 := -(d + 1) + pick(r, []int64{0, 0, 0, 0, 1, -1, 2})
+	k := 1 + r.intn(5)
+	lines := []string{
+		fmt.Sprintf("cfg bound=none expiry=custom refresh=none exec=sync clock0=%d", c0),
+		"tbl expcreate *=0", "tbl expupdate *=0", fmt.Sprintf("tbl expread *=%d", d),
+		fmt.Sprintf("set %d %d", k, 10+r.intn(50)), fmt.Sprintf("qentry %d", k),
+	}
+	switch r.intn(3) {
+	case 0:
+		lines = append(lines, fmt.Sprintf("get %d", k))
+	case 1:
+		lines = append(lines, fmt.Sprintf("entry %d", k))
+	default:
+		lines = append(lines, fmt.Sprintf("sia %d %d", k, 99))
+	}
+	lines = append(lines, fmt.Sprintf("qentry %d", k), fmt.Sprintf("adv %d", d), fmt.Sprintf("get %d", k), fmt.Sprintf("qentry %d", k))
+	return lines
+}
+
 func genSeqScript(seed uint64, profile string) []string {
 	r := &rng{s: seed}
+	if profile == "huge" && r.chance(0.15) {
+		return wrapReadScript(r)
+	}
 	g := &seqGen{r: r, profile: profile}
 	g.nkeys = 3 + r.intn(6)
 	g.unit = pick(r, []int64{1, 10, 1000, 1 << 30, (1 << 30) + 7, 1 << 36})
